@@ -109,7 +109,7 @@ func (self *Lexer) NextToken() (Token, *errors.Error) {
 outer:
 	for self.currentChar != nil {
 		switch *self.currentChar {
-		case ' ', '\n', '\t' | '\r':
+		case ' ', '\n', '\t', '\r':
 			self.advance()
 		case '#':
 			return self.makeSingleChar(HashTag, '#'), nil
